@@ -492,8 +492,8 @@ func init() {
 		QuickRuns:   800, ThoroughRuns: 60000, QuickCap: 60, ThoroughCap: 800,
 		RequiredProbes: []string{"kind_proposal", "kind_endorse", "kind_commit", "kind_handshake", "kind_heartbeat", "kind_blockinfo_fetch", "kind_blockinfo_fetch_resp", "kind_proposal_fetch", "kind_block_fetch", "kind_block_fetch_resp",
 			"payload_signature_verified", "payload_field_mutation_rejected", "payload_other_key_rejected", "proposal_signature_verified", "proposal_header_mutation_rejected", "proposal_empty_block_mutation_rejected", "vote_hash_mutation_rejected", "commit_map_permuted"},
-		Generate: genC44,
-		Execute:  execC44,
+		Generate:   genC44,
+		Execute:    execC44,
 		NoMinimise: noMin,
 	})
 }
